@@ -307,8 +307,10 @@ func oracle(c qcase.Case) (evid.Info, error) {
 			info.Skip = "window-over-rows-the-reference-does-not-have(C01)"
 			return info, nil
 		}
-		if det > qcase.Bag {
-			det = qcase.Bag
+		// (the order inside collected lists was judged on the reference's groups, which are not the SQL's: lists are
+		// compared as multisets)
+		if det > qcase.BagModuloList {
+			det = qcase.BagModuloList
 		}
 	}
 	if msg := qcase.Compare(gotUn, det, gotOpt); msg != "" {
